@@ -3,7 +3,7 @@
    produce exactly the implementation's bytes after each step of a history (same splice, same insertion position, same
    count patch), the same 'exist' flag and the same error class.
    Case: type, bytes, number of ops, then per op: kind (1 set, 2 unset), path, sub type, sub bytes, impl err (0 nil,
-   1 error, 3 panic), impl exist, impl bytes after the op. *)
+   1 error, 3 panic), impl exist, impl bytes after the op, flags (bit 0: Value API, bit 1: all field steps declared). *)
 From Coq Require Import ZArith List Bool.
 From DG Require Import CaseFormat ProtoWireRef ThriftWire ThriftGeneric ThriftEdit ThriftEditBytes Check01.
 Import ListNotations.
@@ -26,7 +26,7 @@ Definition inserted_elsewhere (t : Z) (cur : list Z) (p : list pstep) (st : Z) (
 Definition spec_agrees (t : Z) (cur : list Z) (o : eop) : bool :=
   match decode_all t cur with
   | Some v =>
-      if wf v && op_compat v o && op_dom v o then
+      if wf v && op_dom v o && op_compat v o then     (* op_dom first: it walks raw keys with bounds checks before decoding them *)
         let '(t', b') := bytes_step (t, cur) o in
         let v' := ast_step true v o in (t' =? type_of v') && bytes_eqb b' (encode v')
       else true
@@ -50,8 +50,12 @@ Definition is_408 (t : Z) (cur : list Z) (p : list pstep) : bool :=
   end.
 
 Definition step_403 (idx t : Z) (cur : list Z) (kind : Z) (p : list pstep) (st : Z) (sb : list Z)
-                    (err ex : Z) (res : list Z) : verdict :=
+                    (err ex : Z) (res : list Z) (flags : Z) : verdict :=
   if is_nil p then VBad 94 [] else
+  (* Value API through a field the IDL does not declare: the descriptor guard answers before the algorithm runs (set: an error;
+     unset consults the descriptor for the parent only); the buffer is unchanged *)
+  if Z.testbit flags 0 && negb (Z.testbit flags 1) then
+    expect (700 + idx) (((err =? 1) || (kind =? 2)) && bytes_eqb res cur) [FZ 1; FB cur] else
   if kind =? 1 then
     let internal := match decode_all st sb with Some x => spec_agrees t cur (OSet p x) | None => true end in
     if negb internal then VBad 50 [] else
@@ -84,8 +88,8 @@ Fixpoint run_403 (n : nat) (idx t : Z) (cur : list Z) (fs : list field) : verdic
     match fs with
     | FZ kind :: rest =>
       match parse_path rest with
-      | Some (p, FZ st :: FB sb :: FZ err :: FZ ex :: FB res :: rest') =>
-        match step_403 idx t cur kind p st sb err ex res with
+      | Some (p, FZ st :: FB sb :: FZ err :: FZ ex :: FB res :: FZ flags :: rest') =>
+        match step_403 idx t cur kind p st sb err ex res flags with
         | VOk => run_403 n' (idx + 1) t res rest'
         | VDrift c => match run_403 n' (idx + 1) t res rest' with VOk => VDrift c | o => o end
         | o => o
